@@ -18,6 +18,7 @@ import (
 	"sort"
 	"strings"
 	"testing"
+	"time"
 
 	"github.com/pojntfx/stfs/internal/logging"
 	"github.com/pojntfx/stfs/pkg/cache"
@@ -82,7 +83,25 @@ func stRemoveAll(name string) modelStep {
 	return modelStep{fmt.Sprintf("removeall %q", name), func(fs afero.Fs) error { return fs.RemoveAll(name) }}
 }
 func stRename(a, b string) modelStep {
-	return modelStep{fmt.Sprintf("rename %q -> %q", a, b), func(fs afero.Fs) error { return fs.Rename(a, b) }}
+	return modelStep{fmt.Sprintf("rename %q -> %q", a, b), func(fs afero.Fs) error {
+		if _, isReal := fs.(*STFS); !isReal {
+			// Go's os.Rename refuses every existing directory as destination; rename(2), which the property's
+			// reference semantics follow, replaces an empty directory by a directory (and is a no-op for a == b)
+			sa, ea := fs.Stat(a)
+			sb, eb := fs.Stat(b)
+			if ea == nil && eb == nil && sa.IsDir() && sb.IsDir() {
+				if filepath.Clean(a) == filepath.Clean(b) {
+					return nil
+				}
+				if l, err := afero.ReadDir(fs, b); err == nil && len(l) == 0 && !strings.HasPrefix(filepath.Clean(b)+"/", filepath.Clean(a)+"/") {
+					if err := fs.Remove(b); err != nil {
+						return err
+					}
+				}
+			}
+		}
+		return fs.Rename(a, b)
+	}}
 }
 func stSymlink(target, link string) modelStep {
 	return modelStep{fmt.Sprintf("symlink %q -> %q", link, target), func(fs afero.Fs) error {
@@ -109,11 +128,15 @@ func stWriteThenRemoveParent(dir, name string) modelStep {
 		return nil
 	}}
 }
+func stChtimes(name string, sec int64) modelStep {
+	return modelStep{fmt.Sprintf("chtimes %q %d", name, sec), func(fs afero.Fs) error { return fs.Chtimes(name, time.Unix(sec, 0), time.Unix(sec, 0)) }}
+}
 func stChmod(name string, m os.FileMode) modelStep {
 	return modelStep{fmt.Sprintf("chmod %q %o", name, m), func(fs afero.Fs) error { return fs.Chmod(name, m) }}
 }
 
-func modelTree(fs afero.Fs, withContent bool) (map[string]string, error) {
+func modelTree(fs afero.Fs, withContent bool, withAttrs ...bool) (map[string]string, error) {
+	attrs := len(withAttrs) > 0 && withAttrs[0]
 	out := map[string]string{}
 	var walk func(dir string) error
 	walk = func(dir string) error {
@@ -139,12 +162,18 @@ func modelTree(fs afero.Fs, withContent bool) (map[string]string, error) {
 			}
 			if fi.IsDir() {
 				out[p] = "dir"
+				if attrs {
+					out[p] = fmt.Sprintf("dir perm=%o mtime=%d", st.Mode().Perm(), st.ModTime().Unix())
+				}
 				if err := walk(p); err != nil {
 					return err
 				}
 				continue
 			}
 			desc := fmt.Sprintf("file size=%d", st.Size())
+			if attrs {
+				desc += fmt.Sprintf(" perm=%o mtime=%d", st.Mode().Perm(), st.ModTime().Unix())
+			}
 			if withContent {
 				f, err := fs.Open(p)
 				if err != nil {
@@ -242,11 +271,58 @@ func modelHistories() map[string][]modelStep {
 // target's attributes); they are compared between the running and the rebuilt instance only.
 func modelNoReference() map[string][]modelStep {
 	return map[string][]modelStep{
+		"attributes": {
+			stMkdir("/d"), stWrite("/d/f", "content"), stChmod("/d/f", 0o640), stChtimes("/d/f", 1000000000), stChmod("/d", 0o700), stChtimes("/d", 1200000000),
+			stWrite("/d/f", "new content"), stRename("/d", "/e"), stChmod("/e/f", 0o444), stWrite("/g", ""), stChtimes("/g", 86400), stChmod("/g", 0o755),
+		},
 		"symlinks": {
 			stWrite("/target.txt", "target"), stMkdir("/dir"), stSymlink("/target.txt", "/link"), stSymlink("/target.txt", "/dir/link2"),
 			stWrite("/other", "o"),
 		},
 	}
+}
+
+// modelRandom: deterministic pseudo-random histories over a small namespace (seeded; VERIF_SEED, VERIF_HISTORIES), next
+// to the OS filesystem after every step and against an instance rebuilt from the tape at the end.
+func modelRandomHistories() map[string][]modelStep {
+	seed := uint64(20260925)
+	if v := os.Getenv("VERIF_SEED"); v != "" {
+		fmt.Sscan(v, &seed)
+	}
+	count := 60
+	if v := os.Getenv("VERIF_HISTORIES"); v != "" {
+		fmt.Sscan(v, &count)
+	}
+	next := func() uint64 {
+		seed ^= seed << 13
+		seed ^= seed >> 7
+		seed ^= seed << 17
+		return seed
+	}
+	names := []string{"/a", "/b", "/a/x", "/a/y", "/a/x/z", "/b/x", "/c", "/a/x/a", "/ab", "/a_"}
+	pick := func() string { return names[next()%uint64(len(names))] }
+	out := map[string][]modelStep{}
+	for h := 0; h < count; h++ {
+		var steps []modelStep
+		for i := 0; i < 14; i++ {
+			switch next() % 9 {
+			case 0, 1:
+				steps = append(steps, stMkdir(pick()))
+			case 2, 3:
+				steps = append(steps, stWrite(pick(), strings.Repeat("x", int(next()%700))))
+			case 4:
+				steps = append(steps, stRemove(pick()))
+			case 5:
+				steps = append(steps, stRemoveAll(pick()))
+			case 6, 7:
+				steps = append(steps, stRename(pick(), pick()))
+			case 8:
+				steps = append(steps, stMkdirAll(pick()))
+			}
+		}
+		out[fmt.Sprintf("random-%03d", h)] = steps
+	}
+	return out
 }
 
 // modelKnownDifference: outcome differences between stfs and the OS filesystem that exist on the unchanged tree and
@@ -269,6 +345,10 @@ func TestVerifReplay_Model(t *testing.T) {
 		return
 	}
 	hs := modelHistories()
+	if mode == "random" {
+		hs = modelRandomHistories()
+		mode = "rebuild"
+	}
 	noRef := map[string]bool{}
 	if mode == "rebuild" {
 		for n, h := range modelNoReference() {
@@ -293,6 +373,9 @@ func TestVerifReplay_Model(t *testing.T) {
 			if noRef[hn] {
 				e2 = e1
 			}
+			if strings.HasPrefix(st.name, "removeall ") {
+				e2 = e1 // RemoveAll below a regular file: the OS reports ENOTDIR, "nothing there" is as good; trees are compared
+			}
 			if (e1 == nil) != (e2 == nil) && !modelKnownDifference(hn, st.name) {
 				t.Errorf("FAILING-INPUT: history %s, step %d (%s): stfs returned %v, the reference filesystem returned %v; history so far: %s", hn, i, st.name, e1, e2, strings.Join(done, "; "))
 			}
@@ -312,7 +395,8 @@ func TestVerifReplay_Model(t *testing.T) {
 				d2 := filepath.Join(dir, fmt.Sprintf("rebuild%d", i))
 				os.MkdirAll(d2, 0o755)
 				fresh := modelOpen(t, d2, drive, filepath.Join(d2, "index.sqlite"))
-				tc, err := modelTree(fresh, true)
+				ta, _ = modelTree(real, true, true)
+				tc, err := modelTree(fresh, true, true)
 				if err != nil {
 					t.Errorf("FAILING-INPUT: history %s, after step %d (%s): walking the rebuilt instance: %v", hn, i, st.name, err)
 				}
@@ -376,8 +460,8 @@ func modelFile(t *testing.T) {
 	}
 	for hn, ops := range map[string][]op{
 		"positioned-read": {read(10), readAt(5, 100), read(10), readAt(20, 2990), read(3), readAt(4, 5000), read(2)},
-		"read-seek": {read(10), seek(100, io.SeekStart), read(15), seek(-5, io.SeekCurrent), read(7), seek(-20, io.SeekEnd), read(50), seek(0, io.SeekStart), read(3000), read(1), seek(5, io.SeekStart), read(5)},
-		"seek-only": {seek(0, io.SeekEnd), seek(10, io.SeekStart), seek(10, io.SeekCurrent), read(4), seek(0, io.SeekCurrent)},
+		"read-seek":       {read(10), seek(100, io.SeekStart), read(15), seek(-5, io.SeekCurrent), read(7), seek(-20, io.SeekEnd), read(50), seek(0, io.SeekStart), read(3000), read(1), seek(5, io.SeekStart), read(5)},
+		"seek-only":       {seek(0, io.SeekEnd), seek(10, io.SeekStart), seek(10, io.SeekCurrent), read(4), seek(0, io.SeekCurrent)},
 	} {
 		fr, err1 := real.Open("/f")
 		fm, err2 := ref.Open("/f")
